@@ -27,7 +27,11 @@ def file_text(run):
         out.append("#]]")
     if run["nextdoc"]:
         out += ["#[[[", "# " + SUBST["CMDDOC"], "#]]"]
-    out += ["function(foo a)", "endfunction()"]
+    if md["kind"] == "absent" and not run["nextdoc"] and run["ext_titles"] and not run["ext_modules"]:
+        # a module without anything to document: still a title and one module directive
+        out += ["include_guard()", "message(nothing here)"]
+    else:
+        out += ["function(foo a)", "endfunction()"]
     return "\n".join(out) + "\n"
 
 
@@ -144,7 +148,7 @@ def replay_one(beh, sandbox):
            "module": mods[0].arg if mods else None,
            "modtext": "\n".join(t for t in (mods[0].text_lines if mods else [])),
            "modfields": [list(f) for f in mods[0].fields] if mods else [], "modoptions": [list(o) for o in mods[0].options] if mods else [],
-           "firstdoc": "\n".join(fn[0].text_lines) if fn else None, "stray": [list(x) for x in page.stray]}
+           "firstdoc": "\n".join(fn[0].text_lines) if fn else "", "stray": [list(x) for x in page.stray]}
     return obs, argv
 
 
